@@ -204,7 +204,7 @@ namespace avel {
         typename std::enable_if<N < mask16x32u::width, int>::type dummy_variable = 0;
 
         auto mask = b << N;
-        return mask16x32u{__mmask16((decay(m) & ~mask) | mask)};
+        return mask16x32u{__mmask16((decay(m) & ~(decltype(mask)(1) << N)) | mask)};
     }
 
 
